@@ -520,11 +520,14 @@ class SkyCoordTableCoordinate(BaseTableCoordinate):
 
     @staticmethod
     def combine_slices(slice1, slice2):
+        """
+        The item equivalent to applying ``slice1`` and then ``slice2``.
+        """
         ints = [isinstance(s, Integral) for s in (slice1, slice2)]
         if all(ints):
             raise ValueError("Can not combine two integers")
-        if any(ints):
-            return (slice1, slice2)[ints.index(True)]
+        if ints[0]:
+            return slice1
         return combine_slices(slice1, slice2)
 
     def __getitem__(self, item):
@@ -545,7 +548,7 @@ class SkyCoordTableCoordinate(BaseTableCoordinate):
                                    mesh=True,
                                    names=self.names,
                                    physical_types=self.physical_types)
-            new_coord._slice = [self.combine_slices(a, b) for a, b in zip(sane_item, self._slice)]
+            new_coord._slice = [self.combine_slices(old, new) for new, old in zip(sane_item, self._slice)]
             if all([isinstance(s, Integral) for s in new_coord._slice]):
                 # Here we rebuild the SkyCoord with the slice applied to the individual components.
                 new_sc = SkyCoord(self.table.realize_frame(type(self.table.data)(*new_coord._sliced_components)))
